@@ -377,8 +377,8 @@ def main():
 
 
 MANIFEST = {
-    "claimed": False,
-    "text": "",
-    "note": "",
-    "design_ref": "DESIGN.md 3 C34",
+    "claimed": True,
+    "text": "Theorems (Coq, closed under the global context): no false negatives and monotonicity of add_id and of filter union for all filters and ids (C34_no_false_negative, C34_union_keeps_members); the server answers a chunk request with exactly bytes [off, off+len) of its filter iff off+len <= 512 and not at all otherwise (C34_server_chunk); RemoteBloomFilter::new accepts exactly the multiples of 4 in 1..512 dividing 512 (C34_chunk_sizes); a response is accepted iff a request is outstanding, the cookie is that request's and the length is the chunk size, and handle_response cannot panic (C34_accept_only_current); for every interleaving of requests and genuine, stale, duplicated, wrong-cookie, wrong-size responses, full_filter is Some exactly when 512/chunk answers were accepted and is then the server's filter, and before that the bytes below next_to_request agree with it (C34_complete), under the hypothesis that data passing both acceptance tests is the server's answer to the outstanding request, which follows from fresh client cookies (C34_discipline_suffices).",
+    "note": "Trusted: Coq kernel + vm_compute; hand-written model coq/Model/Bloom.v tied to BloomFilter, ServerId, RemoteBloomFilter, ReferenceIdRequest::{new,to_response} and to the server path NtpPacket::timestamp_response by the correspondence (all valid and 17 invalid chunk sizes, noisy transfers, boundary (length, offset) pairs incl. u16 wrap); filters compared through a position-weighted checksum mod 1000003; client cookies are 64 random bits, freshness is a hypothesis; the extension-field wire codec is C24's.",
+    "design_ref": 'DESIGN.md 3 C34',
 }
